@@ -20,6 +20,7 @@ package static
 import (
 	"bytes"
 	"encoding/json"
+	"errors"
 	"fmt"
 	"io"
 	"io/ioutil"
@@ -32,6 +33,7 @@ import (
 	"path/filepath"
 	"strconv"
 	"strings"
+	"syscall"
 
 	"github.com/google/martian/v3"
 	"github.com/google/martian/v3/parse"
@@ -88,7 +90,9 @@ func (s *Modifier) ModifyResponse(res *http.Response) error {
 
 	f, err := os.Open(fpth)
 	switch {
-	case os.IsNotExist(err):
+	case os.IsNotExist(err), errors.Is(err, syscall.ENOTDIR), errors.Is(err, syscall.ENAMETOOLONG), errors.Is(err, syscall.EINVAL):
+		// No file by that name (a path through a regular file, an over-long or
+		// otherwise impossible name included).
 		res.StatusCode = http.StatusNotFound
 		return nil
 	case os.IsPermission(err):
@@ -102,13 +106,20 @@ func (s *Modifier) ModifyResponse(res *http.Response) error {
 		return err
 	}
 
-	res.Body.Close()
-
 	info, err := f.Stat()
 	if err != nil {
+		f.Close()
 		res.StatusCode = http.StatusInternalServerError
 		return err
 	}
+	if info.IsDir() {
+		// A directory has no content to serve.
+		f.Close()
+		res.StatusCode = http.StatusNotFound
+		return nil
+	}
+
+	res.Body.Close()
 
 	contentType := mime.TypeByExtension(filepath.Ext(fpth))
 	res.Header.Set("Content-Type", contentType)
